@@ -51,6 +51,9 @@ def run(ctx, rep):
         RD.check_with_lines(fx, rep, "C10.reader", "cache", wl, "C10.reader/lines")
     if wo:
         RD.check_without_lines(fx, rep, "C10.reader", "cache", wo, "C10.reader/params")
+    if wl and wo:
+        import anchors as A_
+        RD.check_query_readonly(fx, rep, "C10.reader", "cache", A_.method(fx, "cache::RemappedFrameIter", "next", trait="Iterator") + [wl, wo], "C10.reader")
     LR.check_frame_comparators(fx, rep, "C10.reader")
     LR.check_class_lookup(fx, rep, "C10.reader")
     LR.check_remap_method(fx, rep, "C10.reader")
